@@ -382,9 +382,8 @@ def c17():
         j("c17_delta_destroy_directany_2", T, 200, "destroy(EntityDirectAny)"),
         j("c17_delta_reads_2", T, 100, "queries and reads never touch the logs"),
         j("c17_iter_destroy_2", Q, 200, "ecs_iter_destroy! logs each destruction once, in order"),
-        j("c17_iter_destroy_3", T, 400, "same, N=3"),
         j("c17_clear_arch_clone_2", Q, 250, "Archetype::clear_events empties both logs, nothing else changes; clone carries the pending events"),
-        j("c17_clear_world_clone_2", T, 250, "World::clear_events"),
+        j("c17_clear_world_clone_1", T, 250, "World::clear_events"),
         j("c17_world_iter_created", Q, 150, "World::iter_created = concatenation over archetypes, exact size_hint at every position"),
         j("c17_world_iter_destroyed", T, 200, "World::iter_destroyed"),
     ]
